@@ -14,6 +14,7 @@ import (
 	"verif/harness/mon"
 	"verif/harness/proj"
 	"verif/harness/ref6"
+	"verif/harness/reflabel"
 	"verif/harness/tree"
 	"verif/harness/v6util"
 )
@@ -341,6 +342,29 @@ func TestCheck(t *testing.T) {
 				judge(r, "parseoption", c, v)
 			}
 		}
+	}
+	// (5) names within a few octets of the 255-octet limit (ended by a root octet, by the end of the option, by a
+	//     pointer) in every option that carries names, as an option payload and inside a message
+	nb := r.Pick(4000, 200000)
+	for i := 0; i < nb; i++ {
+		if !r.Mine(i) {
+			continue
+		}
+		rng := r.Rand("name-boundary", i)
+		w := reflabel.Boundary(rng)
+		var code int
+		var v []byte
+		switch rng.IntN(3) {
+		case 0:
+			code, v = 24, w
+		case 1:
+			code, v = 39, append([]byte{byte(rng.UintN(8))}, w...)
+		default:
+			code, v = 56, append([]byte{0, 3, byte(len(w) >> 8), byte(len(w))}, w...)
+		}
+		judge(r, "name-boundary", code, v)
+		msg := append([]byte{byte(1 + rng.UintN(11)), 9, 8, 7, byte(code >> 8), byte(code), byte(len(v) >> 8), byte(len(v))}, v...)
+		judge(r, "name-boundary", -1, msg)
 	}
 	r.Set("parseoption_exhaustive_lengths", "0..64 for every typed code")
 	r.Set("typed_codes_discovered", v6util.SortedCodes(typed))
